@@ -65,7 +65,7 @@ func runC18(c *Ctx) {
 		sigs := storeOps(c.P, fn, memo, 0)
 		hasBoth := false
 		for _, s := range sigs {
-			if strings.Contains(s, "R.Store") && strings.Contains(s, "R.Delete") {
+			if strings.Contains(s, "R.Store") && (strings.Contains(s, "R.Delete") || strings.Contains(s, "R.LoadAndDelete") || strings.Contains(s, "R.CompareAndDelete")) {
 				hasBoth = true
 			}
 		}
@@ -84,7 +84,7 @@ func runC18(c *Ctx) {
 			}
 			callee := staticCallee(call.Common())
 			n := calleeName(call.Common())
-			if n == "(*sync.Map).Delete" || (callee != nil && c.P.reachesCallNamedAny(callee, "(*sync.Map).Delete")) {
+			if nameIn(n, "(*sync.Map).Delete", "(*sync.Map).LoadAndDelete", "(*sync.Map).CompareAndDelete") || (callee != nil && c.P.reachesCallNamedAny(callee, "(*sync.Map).Delete", "(*sync.Map).LoadAndDelete", "(*sync.Map).CompareAndDelete")) {
 				dels = append(dels, call)
 			}
 			if n == "(*sync.Map).Store" || (callee != nil && c.P.reachesCallNamedAny(callee, "(*sync.Map).Store")) {
